@@ -44,12 +44,16 @@ def main():
                          "first": next((l.strip()[:300] for l in out.splitlines() if l.startswith("  rule ")), None)}
         if tests:
             for attempt in range(2):  # the xdist run occasionally hangs with idle workers on a loaded machine: bounded, one retry
-                rc, out = sh(f"timeout -k 10 1800 /venv/bin/python -m pytest -q -p no:cacheprovider {tests}", cwd=wt, env=envs, timeout=2000)
+                rc, out = sh(f"timeout -k 10 1800 /venv/bin/python -m pytest -q -rf -p no:cacheprovider {tests}", cwd=wt, env=envs, timeout=2000)
                 if rc != 124:
                     break
             log["tests_cmd"] = tests
             log["tests_rc"] = rc
             log["tests_tail"] = out.strip().splitlines()[-1] if out.strip() else ""
+            failed = [l.split(" - ")[0] for l in out.splitlines() if l.startswith("FAILED ")]
+            if failed:
+                log["tests_failed"] = failed
+                log["tests_tail"] += " | failed: " + ", ".join(f.replace("FAILED ", "") for f in failed)[:400]
     finally:
         sh(f"git -C /repo worktree remove --force {wt}")
     ok = log.get("demo_clean_rc") == 0 and log.get("demo_patched_rc") not in (0, None) and log.get("imports_rc") == 0
